@@ -210,7 +210,7 @@ def step (w : Nat) (t : Thread) : Op → Thread × String
   | .bad => (t, "bad-op")
   | .width n => (t, if n = w then s!"width {n}" else s!"width-mismatch model={w}")
   | .init bs =>
-    ({ t with ctx := t.ctx.reinit bs, handles := #[], lastAlloc := none }, "ok")
+    ({ t with ctx := t.ctx.reinit bs, handles := #[], lastAlloc := none, logArea := none }, "ok")
   | .root =>
     let (c, v) := t.ctx.inputGet
     fmtVal w { t with ctx := c } v
@@ -419,6 +419,14 @@ def step (w : Nat) (t : Thread) : Op → Thread × String
 
 end Thread
 
+/-- run a list of operations on one thread -/
+def Thread.run (w : Nat) : Thread → List Op → Thread × List String
+  | t, [] => (t, [])
+  | t, op :: rest =>
+    let (t1, a) := t.step w op
+    let (t2, as) := Thread.run w t1 rest
+    (t2, a :: as)
+
 /-! ### a system of threads -/
 
 structure Sys where
@@ -440,6 +448,17 @@ def set (s : Sys) (t : Nat) (th : Thread) : Sys :=
 def step (w : Nat) (s : Sys) (op : Op) : Sys × String :=
   let (th, a) := (s.get s.cur).step w op
   (s.set s.cur th, a)
+
+/-- a schedule: which thread performs which operation, in global order -/
+abbrev Sched := List (Nat × Op)
+
+/-- run a schedule; the result lists (thread, answer) in global order -/
+def runSched (w : Nat) : Sys → Sched → Sys × List (Nat × String)
+  | s, [] => (s, [])
+  | s, (t, op) :: rest =>
+    let (s1, a) := ({ s with cur := t }).step w op
+    let (s2, as) := runSched w s1 rest
+    (s2, (t, a) :: as)
 
 end Sys
 end SfVerif
